@@ -116,6 +116,9 @@ type c30World struct {
 	preDiffer int
 	forkCb    int
 	inPoll    bool
+	// the poll's own first hash call (forkChanged) saw a hash that differs from the stored tip
+	pollHashCalls int
+	pollForkSeen  bool
 	queries   int
 }
 
@@ -314,6 +317,7 @@ func (w *c30World) FetchLatestBlockNum(ctx context.Context) (int64, error) {
 		}
 	}
 	w.pollOpen, w.pollErr, w.pollMixed, w.pollRep, w.pollVer, w.forkCb = true, false, false, rep, w.cur, 0
+	w.pollHashCalls, w.pollForkSeen = 0, false
 	w.pollCalm = w.phase == c30Calm
 	w.inPoll = true
 	if err := w.call(ctx, "latest"); err != nil {
@@ -346,17 +350,29 @@ func (w *c30World) FetchBlockHashByNum(ctx context.Context, h int64) (string, er
 			w.curRep = w.tip
 		}
 	}
+	first := w.pollOpen && w.pollHashCalls == 0
+	w.pollHashCalls++
 	if err := w.call(ctx, "hash"); err != nil {
 		w.pollErr = true
+		if w.pollOpen && w.pollForkSeen {
+			r.Probe("fetch_failed_after_fork_seen")
+		}
 		r.Logf("   hash(%d) -> error (%v)", h, err)
 		return "", err
 	}
 	if h < 0 || h > w.tip || (h > w.curRep && !w.regressServe) {
 		w.pollErr = true
+		if w.pollOpen && w.pollForkSeen {
+			r.Probe("fetch_failed_after_fork_seen")
+		}
 		r.Logf("   hash(%d) -> unknown block", h)
 		return "", fmt.Errorf("simulated node: block %d not found", h)
 	}
 	hash := w.cur.hash(h)
+	if first && len(w.pre) > 0 && w.pre[len(w.pre)-1].Block == h && w.pre[len(w.pre)-1].Hash != hash {
+		// the poll's fork probe: the node's hash for the stored tip is not the stored one
+		w.pollForkSeen = true
+	}
 	m := w.served[h]
 	if m == nil {
 		m = map[string]struct{}{}
@@ -440,7 +456,22 @@ func (w *c30World) endPoll() {
 	if !w.checkStructure("after-poll", latest, q) {
 		return
 	}
+	// "the fork callback fires only when a stored hash changed", also across failed polls: a poll
+	// in which the callback fired must have changed what the tracker stores (both configurations:
+	// a poll that replaced nothing -- e.g. it failed half way -- has no business reporting a fork,
+	// the change is reported by the poll that stores it)
+	if w.forkCb > 0 {
+		r.OracleEvals++
+		if latest == w.preLatest && c30Fmt(q) == c30Fmt(w.pre) {
+			w.viol("fork-callback-without-changed-hash", "nothing-stored-changed-in-poll", "the fork callback fired %d time(s) in poll %d (%s), but the tracker stores exactly what it stored when the poll started: latest %d [%s]", w.forkCb, w.pollNo, outcome, latest, c30Fmt(q))
+			return
+		}
+		r.Probe("fork_cb_poll_changed_stored_hashes")
+	}
 	if w.pollErr {
+		if w.pollForkSeen {
+			r.Probe("poll_failed_after_fork_seen")
+		}
 		r.Op("poll", "failed")
 	} else if w.pollRep < w.preLatest {
 		// height regression: the tracker deliberately keeps its higher latest (consistency callback)
@@ -832,7 +863,7 @@ func init() {
 		NonTrivial: func(r *simrt.Run) bool {
 			return r.Ops["poll:ok"] >= 4 && r.Ops["query:ok"] >= 3 && r.Switches >= 20
 		},
-		Rule:    "the real ChainTracker (blocksToSave 1-12, its own timers, ticker and back-off on the synctest fake clock; its polling goroutine is a scheduled task) polls a simulated node with hash-chained blocks (hash = f(height, fork id)); per poll the tape picks the node's next state: +1..4 blocks, jump ahead (around and beyond memory), reorganisation of depth <= memory, depth > memory, reorganisation + growth, no change, or a reported latest below the tip (with/without the higher blocks served); per call: latency, plain error, net.Error timeout, slow answer, hang past the fetch deadline. Profile strict: the node changes only at the instant a poll starts; profile relaxed: also between the calls of one poll. 0-3 reader tasks call GetLatestBlockData over a grid of (from,to,specific) incl. LATEST_BLOCK-relative and out-of-window arguments and GetLatestBlockNum while the poller runs. After 6-25 polls (thorough 20-100) the node and the faults stop and 3 quiet polls follow. Non-trivial = >=4 successful polls, >=3 successful queries, >=20 context switches; distinct = (op,outcome,fault) sequence x context-switch sequence",
+		Rule:    "the real ChainTracker (blocksToSave 1-12, its own timers, ticker and back-off on the synctest fake clock; its polling goroutine is a scheduled task) polls a simulated node with hash-chained blocks (hash = f(height, fork id)); per poll the tape picks the node's next state: +1..4 blocks, jump ahead (around and beyond memory), reorganisation of depth <= memory, depth > memory, reorganisation + growth, no change, or a reported latest below the tip (with/without the higher blocks served); per call: latency, plain error, net.Error timeout, slow answer, hang past the fetch deadline. Profile strict: the node changes only at the instant a poll starts; profile relaxed: also between the calls of one poll. 0-3 reader tasks call GetLatestBlockData over a grid of (from,to,specific) incl. LATEST_BLOCK-relative and out-of-window arguments and GetLatestBlockNum while the poller runs. After 6-25 polls (thorough 20-100) the node and the faults stop and 3 quiet polls follow. Fork callback: (strict) fires only in polls at whose start a held hash differed from the node's; (both) a poll in which it fired, successful or failed, must have changed the stored hashes. Non-trivial = >=4 successful polls, >=3 successful queries, >=20 context switches; distinct = (op,outcome,fault) sequence x context-switch sequence",
 		Real:    []string{"protocol/chaintracker ChainTracker incl. start() polling goroutine, updateTimer/exponential back-off, fetchAllPreviousBlocks/readHashes/hashesOverlapIndexes/replaceBlocksQueue, forkChanged, DefaultChainTrackerFetcher, GetLatestBlockData/WantedBlocksData, GetLatestBlockNum (instrumented copies through the build overlay)", "timers, ticker, context deadlines on the synctest fake clock"},
 		Stubbed: []string{"the node behind chaintracker.ChainFetcher (simulated: hash-chained blocks, forks, gaps, regressions, errors, latency)", "reader tasks", "gRPC listener not started (no ServerAddress)", "provider metrics (nil)"},
 		Assume:  []string{"code between two instrumented synchronisation points is atomic in the simulation", "a poll counts as successful when no node call of that poll failed and the reported latest is not below the tracker's (a lower reported latest is answered with the consistency callback and deliberately not mirrored)", "the node serves every height 0..tip and never re-creates a hash of an abandoned fork", "fork callback legitimacy: some hash held at poll start differs from the node's hash for that height", "ServerBlockMemory is set above the number of polls so that AddBlockGap never draws from crypto/rand", "bounded liveness K = 3 quiet polls"},
